@@ -53,9 +53,9 @@ def run(ctx):
             for e in sorted(g['entries']):
                 r.site(e)
             whys = sorted(set(g['whys']))
-            r.bad('entries=' + ','.join(sorted(g['entries'])),
+            r.bad('write-then-fail',
                   'a failing storage call leaves the member changed: `%s` is written in `%s` and a storage call that can still fail follows '
-                  '(in %s), in operations: %s (%s)' % (path, w, ', '.join(sorted(g['ffs']))[:300], ', '.join(sorted(g['entries'])), whys[0]), where=whys[:4])
+                  '(in %s), in operations: %s (%s)' % (path, w, ', '.join(sorted(g['ffs']))[:300], ', '.join(sorted(g['entries'])), whys[0]), where=whys[:4], members=sorted(g['entries']))
             return r
         ctx.check('FAIL-ATOMIC(storage)', 'path=%s|writer=%s' % (path, w), one)
     ctx.check('STORAGE-CHECKED', 'every storage call result is checked in place',
@@ -63,9 +63,9 @@ def run(ctx):
                                        fn_rx=None), floor=8)
     W = 'GroupStateRepository::write_to_storage'
     ctx.check('ORDER', 'write_to_storage: state write before the pending records are cleared',
-              lambda P_: order(P_, W, r'GroupStateStorage::write$', r'::clear$'), floor=2)
+              lambda P_: order(P_, W, r'GroupStateStorage::write$', r'::clear$'), floor=2, configs=['A', 'C', 'D'])
     ctx.check('ORDER', 'write_to_storage: pending records cleared before the key package is deleted',
-              lambda P_: order(P_, W, r'::clear$', r'KeyPackageStorage::delete$'), floor=1)
+              lambda P_: order(P_, W, r'::clear$', r'KeyPackageStorage::delete$'), floor=1, configs=['A', 'C', 'D'])
     ctx.check('MUST-PASS', 'write_to_storage: the state write is on every success path',
               lambda P_: must_pass(P_, W, r'GroupStateStorage::write$'), floor=1)
     ctx.check('WHO-CALLS', 'only the repository writes group state to storage',
